@@ -1579,6 +1579,155 @@ async fn server_closes_case(seed: u64, low_level: bool, protocol_violation: bool
 	out
 }
 
+const CONFIG_ORDERS: [&str; 12] = [
+	"max_connections(n).http_only()",
+	"http_only().max_connections(n)",
+	"max_connections(n).ws_only()",
+	"ws_only().max_connections(n)",
+	"max_connections(n).max_request_body_size(..).max_response_body_size(..)",
+	"max_connections(n).enable_ws_ping(..)",
+	"max_connections(n).disable_ws_ping()",
+	"max_connections(n).set_message_buffer_capacity(..).max_subscriptions_per_connection(..)",
+	"max_connections(n).set_batch_request_config(..)",
+	"max_connections(n).set_id_provider(..).set_tcp_no_delay(..)",
+	"max_connections(n).set_keep_alive(..).set_keep_alive_timeout(..)",
+	"max_connections(7).max_connections(n)",
+];
+
+/// The limit is the one given to `max_connections`, whatever else is said to the configuration builder before or after
+/// it: n connections are served, connection n+1 is refused with 429 and its handler does not run.
+async fn config_order_case(seed: u64) -> Out {
+	let mut out = Out::default();
+	let mut r = Rng::new(seed);
+	let n = 1 + r.below(2) as u32;
+	let order = r.usize(CONFIG_ORDERS.len());
+	let b = ServerConfig::builder();
+	let cfg = match order {
+		0 => b.max_connections(n).http_only(),
+		1 => b.http_only().max_connections(n),
+		2 => b.max_connections(n).ws_only(),
+		3 => b.ws_only().max_connections(n),
+		4 => b.max_connections(n).max_request_body_size(1 << 16).max_response_body_size(1 << 16),
+		5 => b.max_connections(n).enable_ws_ping(jsonrpsee_server::PingConfig::new()),
+		6 => b.max_connections(n).disable_ws_ping(),
+		7 => b.max_connections(n).set_message_buffer_capacity(8).max_subscriptions_per_connection(4),
+		8 => b.max_connections(n).set_batch_request_config(jsonrpsee_server::BatchRequestConfig::Limit(3)),
+		9 => b.max_connections(n).set_id_provider(jsonrpsee_server::RandomStringIdProvider::new(8)).set_tcp_no_delay(false),
+		10 => b.max_connections(n).set_keep_alive(Some(Duration::from_secs(30))).set_keep_alive_timeout(Duration::from_secs(5)),
+		_ => b.max_connections(7).max_connections(n),
+	}
+	.build();
+	let how = CONFIG_ORDERS[order];
+	let sh = Arc::new(Shared::default());
+	let srv = Arc::new(MemServer::new(cfg, module(sh.clone())));
+	let ws_allowed = !matches!(order, 0 | 1);
+	let http_allowed = !matches!(order, 2 | 3);
+	let via_http = http_allowed && (!ws_allowed || r.bool());
+	macro_rules! bad {
+		($sig:expr, $($arg:tt)*) => { out.violations.push(($sig.to_string(), format!($($arg)*))) };
+	}
+	let hold = |tag: &str| json!({"jsonrpc": "2.0", "id": 1, "method": "hold", "params": [tag]}).to_string();
+	let mut wss = Vec::new();
+	let mut https = Vec::new();
+	let mut tags = Vec::new();
+	// n connections, a call in its handler on each
+	for k in 0..n {
+		let tag = format!("co{k}");
+		out.attempts += 1;
+		if via_http {
+			let (s2, body) = (srv.clone(), hold(&tag).into_bytes());
+			https.push(tokio::spawn(async move { s2.http_post(body).await }));
+		} else {
+			match jrv::memsrv::FrameWs::connect(srv.raw_conn().0, Duration::from_secs(5)).await {
+				Ok(mut ws) => {
+					ws.send_frame(true, 1, hold(&tag).as_bytes()).await;
+					wss.push(ws);
+				}
+				Err(e) => {
+					bad!(format!("refused-with-free-slot/ws-open/config:{how}"), "{k} of {n} slots in use: {e}");
+					return out;
+				}
+			}
+		}
+		out.admitted += 1;
+		tags.push(tag);
+	}
+	settle(30).await;
+	let started = sh.started.lock().unwrap().clone();
+	if tags.iter().any(|t| !started.contains(t)) {
+		bad!(format!("refused-with-free-slot/held-call-not-started/config:{how}"), "{n} connections within the limit of {n}, handlers started: {started:?}");
+		return out;
+	}
+	if let Some(g) = sh.guard.lock().unwrap().clone() {
+		out.occupancy_checks += 1;
+		if g.max_connections() != n as usize {
+			bad!(format!("cap-exceeded/limit-not-the-configured-one/config:{how}"), "max_connections({n}) was configured, the guard of the running server says {}", g.max_connections());
+		}
+	}
+	// connection n+1, over each transport the server speaks
+	for over_http in [true, false] {
+		if (over_http && !http_allowed) || (!over_http && !ws_allowed) {
+			continue;
+		}
+		out.attempts += 1;
+		let tag = format!("extra-{over_http}");
+		if over_http {
+			let (s2, body) = (srv.clone(), hold(&tag).into_bytes());
+			let h = tokio::spawn(async move { s2.http_post(body).await });
+			settle(30).await;
+			let ran = sh.started.lock().unwrap().contains(&tag);
+			if let Some(g) = sh.gates.lock().unwrap().get(&tag).cloned() {
+				g.notify_one();
+			}
+			let status = match tokio::time::timeout(Duration::from_secs(5), h).await {
+				Ok(Ok(rp)) => rp.status,
+				_ => 0,
+			};
+			if ran || status != 429 {
+				bad!(format!("cap-exceeded/http-served-beyond-limit/config:{how}"), "{n} of {n} connections are being served, request {} was answered {status}{}", n + 1, if ran { " and its handler ran" } else { "" });
+			} else {
+				out.refused += 1;
+			}
+		} else {
+			match jrv::memsrv::FrameWs::connect(srv.raw_conn().0, Duration::from_secs(5)).await {
+				Ok(mut ws) => {
+					ws.send_frame(true, 1, hold(&tag).as_bytes()).await;
+					settle(30).await;
+					let ran = sh.started.lock().unwrap().contains(&tag);
+					if let Some(g) = sh.gates.lock().unwrap().get(&tag).cloned() {
+						g.notify_one();
+					}
+					bad!(format!("cap-exceeded/ws-admitted-beyond-limit/config:{how}"), "{n} of {n} connections are being served, WebSocket connection {} was accepted{}", n + 1, if ran { " and its call's handler ran" } else { "" });
+				}
+				Err(e) if e.contains("429") => out.refused += 1,
+				Err(e) => bad!(format!("refusal-not-429/ws-open/config:{how}"), "{e}"),
+			}
+		}
+	}
+	// release
+	for t in &tags {
+		if let Some(g) = sh.gates.lock().unwrap().get(t).cloned() {
+			g.notify_one();
+		}
+	}
+	for h in https {
+		let _ = tokio::time::timeout(Duration::from_secs(5), h).await;
+	}
+	drop(wss);
+	settle(50).await;
+	out.endings += n as usize;
+	if let Some(g) = sh.guard.lock().unwrap().clone() {
+		out.occupancy_checks += 1;
+		let occ = g.max_connections().saturating_sub(g.available_connections());
+		if occ != 0 {
+			bad!(format!("occupancy-wrong/slot-not-returned/at-the-end/config:{how}"), "everything has ended, the guard shows {occ} of {n} in use");
+		}
+	}
+	out.max_served = n as usize;
+	out.history.push(format!("{how} via_http={via_http} n={n}"));
+	out
+}
+
 fn record(spec: &Spec, o: Out, class: &str, ev: &mut Evidence, violations: &mut Vec<Violation>) {
 	ev.eval();
 	ev.count("attempts", o.attempts as u64);
@@ -1765,6 +1914,33 @@ fn main() {
 			}
 			for (sig, d) in o.violations {
 				violations.push(Violation::new(sig, d, json!({"family": "server closes the connection", "seed": s})));
+			}
+		}
+	}
+	if !replay || replay_family.as_deref() == Some("configuration order") {
+		let seeds: Vec<u64> = match (replay, replay_seed) {
+			(true, Some(s)) => vec![s],
+			_ => (0..ctx.tier.pick(240u64, 12_000)).map(|i| Rng::fork(ctx.seed ^ 0xc0f9, i).next_u64()).collect(),
+		};
+		let res = run_parallel(seeds, |_, s| (s, block_on_virtual(config_order_case(s))));
+		for (s, o) in res {
+			ev.eval();
+			ev.count("config_order_cases", 1);
+			ev.count("attempts", o.attempts as u64);
+			ev.count("attempts_refused_429", o.refused as u64);
+			ev.count("attempts_admitted", o.admitted as u64);
+			ev.count("occupancy_checks", o.occupancy_checks as u64);
+			for h in &o.history {
+				ev.class("configuration_orders", &h.split(' ').next().unwrap_or(""));
+			}
+			if o.refused > 0 && o.violations.is_empty() {
+				ev.nontrivial(&("config-order", s));
+			}
+			if replay {
+				println!("history: {:?} violations: {:?}", o.history, o.violations);
+			}
+			for (sig, d) in o.violations {
+				violations.push(Violation::new(sig, d, json!({"family": "configuration order", "seed": s})));
 			}
 		}
 	}
